@@ -305,3 +305,46 @@ def collective_model(rows, site_frac, matrix, window, cutoff, band=1e-9):
             elif dmin < cutoff + band:
                 may.add(frozenset((i, j)))
     return must, may
+
+
+# --------------------------------------------------------------------------- multisets of points
+def match_rows(a, b, tol):
+    """Match the rows of a (n, d) one-to-one onto rows of b (n, d) within `tol` (greedy nearest on the distance matrix,
+    most constrained rows first).  Returns the index array p with |a[i] - b[p[i]]| <= tol, or None if no matching exists."""
+    a = np.asarray(a, float).reshape(len(a), -1)
+    b = np.asarray(b, float).reshape(len(b), -1)
+    if a.shape != b.shape:
+        return None
+    n = len(a)
+    if n == 0:
+        return np.zeros(0, dtype=int)
+    D = np.abs(a[:, None, :] - b[None, :, :]).max(axis=-1)
+    ok = D <= tol
+    if not ok.any(axis=1).all() or not ok.any(axis=0).all():
+        return None
+    # Hopcroft-Karp would be exact; candidates sets here are tiny (duplicates only), so augmenting paths suffice
+    match_b = -np.ones(n, dtype=int)
+
+    def try_assign(i, seen):
+        for j in np.flatnonzero(ok[i]):
+            if j in seen:
+                continue
+            seen.add(j)
+            if match_b[j] < 0 or try_assign(match_b[j], seen):
+                match_b[j] = i
+                return True
+        return False
+
+    import sys
+
+    lim = sys.getrecursionlimit()
+    sys.setrecursionlimit(max(lim, 4 * n + 100))
+    try:
+        for i in np.argsort(ok.sum(axis=1)):
+            if not try_assign(int(i), set()):
+                return None
+    finally:
+        sys.setrecursionlimit(lim)
+    p = np.empty(n, dtype=int)
+    p[match_b] = np.arange(n)
+    return p
